@@ -758,13 +758,13 @@ mut("mag: fixed instance count read in the user's unit", ["R-MAG"],
     [(ST, "self.fixed_nb_of_instances.to(u.dimensionless).magnitude", "self.fixed_nb_of_instances.magnitude")],
     ["Storage.update_nb_of_instances"])
 mut("mag: shift duration read in the user's unit", ["R-MAG"],
-    [(EO, "math.floor(shift_duration.to(u.hour).magnitude)", "math.floor(shift_duration.magnitude)")],
+    [(EO, "math.floor(round(shift_duration.to(u.hour).magnitude, 9))", "math.floor(round(shift_duration.magnitude, 9))")],
     ["return_shifted_hourly_quantities"])
 mut("mag: event duration read in the user's unit", ["R-MAG"],
     [(CNO, "copy(event_duration.value).to(u.hour).magnitude", "copy(event_duration.value).magnitude")],
     ["compute_nb_avg_hourly_occurrences"])
 mut("mag: storage duration read in the user's unit", ["R-MAG"],
-    [(ST, "math.ceil(self.data_storage_duration.to(u.hour).magnitude)", "math.ceil(self.data_storage_duration.magnitude)")],
+    [(ST, "math.ceil(round(self.data_storage_duration.to(u.hour).magnitude, 9))", "math.ceil(round(self.data_storage_duration.magnitude, 9))")],
     ["automatic_storage_dumps_after_storage_duration"])
 mut("mag: raw instance count no longer made dimensionless before ceil", ["R-MAG"],
     [(ST, "        raw_nb_of_instances = (self.full_cumulative_storage_need / self.storage_capacity).to(u.dimensionless)",
@@ -779,8 +779,8 @@ mut("mag: on-premise maximum read before conversion", ["R-MAG"],
       "            max_nb_of_instances = self.hour_by_hour_ram_need.max().ceil()")],
     ["on_premise_update_nb_of_instances"])
 twin("mag: conversion hoisted into a local first", ["R-MAG"],
-     [(ST, "            storage_duration_in_hours = math.ceil(self.data_storage_duration.to(u.hour).magnitude)",
-       "            duration_h = self.data_storage_duration.to(u.hour)\n            storage_duration_in_hours = math.ceil(duration_h.magnitude)")])
+     [(ST, "            storage_duration_in_hours = math.ceil(round(self.data_storage_duration.to(u.hour).magnitude, 9))",
+       "            duration_h = self.data_storage_duration.to(u.hour)\n            storage_duration_in_hours = math.ceil(round(duration_h.magnitude, 9))")])
 twin("mag: sign test written the other way round", ["R-MAG"],
      [(ST, "            if job.data_stored.magnitude >= 0:", "            if 0 <= job.data_stored.magnitude:")])
 
